@@ -142,7 +142,7 @@ def c07(tier):
             for e in o["events"]:
                 if e["file"] == "main.c":
                     events.append(dict(kind=e["kind"], before=e["before"], after=e["after"], depth=e["depth"], emitted=e["emitted"], case=i, line=e["line"], first=e["first"]))
-    if kept_some < 50 or dropped_some < 50:
+    if (kept_some < 50 or dropped_some < 50) and not verdict.violations:      # (a run that found violations reports them)
         raise common.ToolError("vacuous: kept_some=%d dropped_some=%d" % (kept_some, dropped_some))
     # ---- trace validation of the hook events against CppImpl (Layer 2): drift, not a verdict on the property
     d = common.workdir("trace_c07")
@@ -467,6 +467,60 @@ def observe_lit(c, o):
         return None
 
 
+def render_shape(t, k):
+    """-> (text, next literal number)"""
+    if t["k"] == "lit":
+        return 'g0("q%d")' % k, k + 1
+    if t["k"] == "bin":
+        a, k = render_shape(t["a"], k)
+        b, k = render_shape(t["b"], k)
+        return a + " + " + b, k
+    e, k = render_shape(t["e"], k)
+    return {"par": "(%s)", "sub": "a0[%s]", "arg": "f1(%s)"}[t["k"]] % e, k
+
+
+def shape_cases(tier, verdict, pid):
+    d = common.workdir("gen_c09s")
+    cfg = os.path.join(d, "GenLitShape.cfg")
+    open(cfg, "w").write("INIT Init\nNEXT Next\nCONSTANTS MaxLits = %d\n MaxDepth = 3\nINVARIANT Emit\nCHECK_DEADLOCK FALSE\n" % (3 if tier == "quick" else 4))
+    res = common.run_tlc("GenLitShape", cfg=cfg, name="gen_c09s", tags={"CASE"}, workers=4, heap="6g", timeout=1500)
+    common.require_ok(res, "GenLitShape")
+    cases = [o for (_, o) in res.lines]
+    cases.sort(key=lambda o: json.dumps(o, sort_keys=True))
+    if len(cases) > 12000:
+        cases = random.Random(common.seed()).sample(cases, 12000)
+    head = "char a0[4]; char r0;\nchar g0(char *s) { return s[0]; }\nchar f1(char x) { return x; }\n"
+    hc = []
+    for i, c in enumerate(cases):
+        e, n = render_shape(c["shape"], 0)
+        assert n == c["lits"]
+        body = {"assign": "void main() { X = %s; }\n", "cond": "void main() { if (%s) r0 = 1; }\n", "ret": "char h0() { return %s; }\nvoid main() { r0 = h0(); }\n"}[c["ctx"]] % e
+        c["_src"] = head + body
+        hc.append(dict(id=i, src=c["_src"], variants=[dict(name="O1", args=["-O1"])]))
+    obs = common.run_harness("compile", hc, "c09s")
+    ok = refused = bad = 0
+    for c, ob in zip(cases, obs):
+        o = ob[0] if ob else {"status": "missing"}
+        if o.get("status") == "err":
+            refused += 1
+            continue
+        want = sorted([113, 48 + k, 0] for k in range(c["lits"]))
+        if o.get("status") != "ok":
+            problem = "compiler %s: %s" % (o.get("status"), str(o.get("panic", ""))[:120])
+        else:
+            got = sorted([e.get("int") for e in v["def"]["array"]] for v in o["vars"] if v["name"].startswith("cctmp") and v["def"] and "array" in v["def"])
+            if got == want:
+                ok += 1
+                continue
+            problem = "literals stored %s, the source has %s" % (json.dumps(got), json.dumps(want))
+        bad += 1
+        verdict.violation("literals in one expression (%s): %s" % (c["_src"].splitlines()[-1][:80] if c["ctx"] != "ret" else c["_src"].splitlines()[-2][:80], problem[:160]),
+                          dict(property=pid, layer="GenLitShape", shape=c["shape"], context=c["ctx"], source=c["_src"], problem=problem))
+    if ok < 50 and bad == 0:
+        raise common.ToolError("vacuous: %d expression shapes accepted" % ok)
+    return len(cases), ok, refused, bad
+
+
 def c09(tier):
     t0 = time.time()
     pid = "C09"
@@ -522,8 +576,11 @@ def c09(tier):
         nbad += 1
         verdict.violation('%s literal "%s": %s' % (c["ctx"], "".join(c["raw"]), problem[:150]),
                           dict(property=pid, body=c["body"], raw="".join(c["raw"]), context=c["ctx"], expected_bytes=want, problem=problem, source=c["_src"], finding_keys=keys))
-    if accepted < 100:
+    if (accepted < 100) and not verdict.violations:      # (a run that found violations reports them)
         raise common.ToolError("vacuous: %d literals accepted" % accepted)
+    # ---- GenLitShape.tla: several literals inside one expression, in every arrangement of parentheses, subscripts, call arguments and
+    # binary operators within the bound: each literal of the source must be stored, once, with its own bytes
+    sh_total, sh_ok, sh_refused, sh_bad = shape_cases(tier, verdict, pid)
     # ---- Layer 2: CppScan.tla (the scanner that extracts the literals, as coded), see C11; here the extracted literals are judged
     from . import cppscan
     sdistinct, snconfs, sdrift, _st, slits = cppscan.run_both(tier, "c09", light=True)
@@ -534,7 +591,8 @@ def c09(tier):
                           dict(property=pid, layer="CppScan", text=v["text"], literals=v["literals"], textbook=v["textbook"]))
     layer2 = dict(texts_model_checked=sdistinct, invariants=["TextReq", "LitReq", "CommentReq", "LinesReq"], texts_replayed_into_cpp_process=snconfs,
                   model_conformant=(len(sdrift) == 0), first_drift=(sdrift[0] if sdrift else None), drifts=len(sdrift), literal_lists_differing_from_textbook=len(slits))
-    cov = dict(states=res.distinct + sdistinct, transitions=res.generated, traces_validated_against_impl=len(cases) + snconfs, layer2_CppScan=layer2,
+    cov = dict(states=res.distinct + sdistinct, transitions=res.generated, traces_validated_against_impl=len(cases) + snconfs + sh_total, layer2_CppScan=layer2,
+               expression_shapes=dict(replayed=sh_total, stored_exactly=sh_ok, refused_by_compiler=sh_refused, disagreements=sh_bad),
                samples=[dict(body=c["body"], context=c["ctx"], source=c["_src"], expected_bytes=c["bytes"]) for c in cases[50:53]],
                literals_generated=total, literals_replayed=len(cases), accepted=accepted, rejected_by_compiler=rejected, disagreements=nbad,
                attributed_to_known_findings=verdict.known, max_body_symbols=maxlen, exhaustive=(len(cases) == total),
@@ -697,9 +755,9 @@ def c08(tier):
         nbad += 1
         verdict.violation("option -D%s: `%s` does not compile like `%s`" % ("".join(o["opt"]), " ".join(o["stmt"]), " ".join(o["expected"])),
                           dict(property=pid, option="-D" + "".join(o["opt"]), statement=o["stmt"], expected_expansion=o["expected"], with_option=a.get("err", code(a)), reference=code(b)))
-    if len(dopts) < 6:
+    if (len(dopts) < 6) and not verdict.violations:      # (a run that found violations reports them)
         raise common.ToolError("vacuous: %d -D cases" % len(dopts))
-    if expanded < 100:
+    if (expanded < 100) and not verdict.violations:      # (a run that found violations reports them)
         raise common.ToolError("vacuous: %d cases with an actual expansion" % expanded)
     cov = dict(states=res.distinct, transitions=res.generated, traces_validated_against_impl=len(hc),
                samples=[dict(source=m[2], defines=m[3], expected=m[0]["expected"]) for m in meta[200:203]],
